@@ -56,12 +56,22 @@ def assert_is_instance(
         )
 
 
-@lru_cache(4096)
-def try_get_signature(fn: Callable):
+def _try_get_signature(fn: Callable):
     try:
         return inspect.signature(fn)
     except ValueError:
         return None
+
+
+_try_get_signature_cached = lru_cache(4096)(_try_get_signature)
+
+
+def try_get_signature(fn: Callable):
+    try:
+        return _try_get_signature_cached(fn)
+    except TypeError:
+        # fn is not hashable.
+        return _try_get_signature(fn)
 
 
 def assert_can_bind(fn: Callable, /, *args, **kwargs):
